@@ -403,6 +403,10 @@ INPLACE_METHODS = {"sort", "fill", "append", "insert", "remove", "pop", "update"
                    "reverse", "resize", "put", "itemset", "partition", "byteswap", "setflags", "popitem", "drop_duplicates_inplace"}
 
 
+LIBRARY_MODULES = {"np", "numpy", "pd", "pandas", "scipy", "linalg", "itertools", "math", "functools", "operator"}
+LIBRARY_INPLACE_FUNCS = {"put", "place", "putmask", "copyto", "fill_diagonal", "put_along_axis", "shuffle"}
+
+
 def inplace_sites(fn):
     """(node, target expression, kind) for every in-place mutation in fn (nested closures included)"""
     out = []
@@ -423,7 +427,11 @@ def inplace_sites(fn):
                     if isinstance(t, ast.Subscript):
                         out.append((n, t.value, "del item", root))
             elif isinstance(n, ast.Call):
-                if isinstance(n.func, ast.Attribute) and n.func.attr in INPLACE_METHODS:
+                if isinstance(n.func, ast.Attribute) and isinstance(n.func.value, ast.Name) and n.func.value.id in LIBRARY_MODULES:
+                    # np.sort / np.append / np.insert ... return new arrays; only a few library functions write into an argument
+                    if n.func.attr in LIBRARY_INPLACE_FUNCS and n.args:
+                        out.append((n, n.args[0], f"{n.func.value.id}.{n.func.attr}(target, ...)", root))
+                elif isinstance(n.func, ast.Attribute) and n.func.attr in INPLACE_METHODS:
                     out.append((n, n.func.value, f".{n.func.attr}()", root))
                 for k in n.keywords:
                     if k.arg == "inplace" and not (isinstance(k.value, ast.Constant) and k.value.value is False):
